@@ -1142,6 +1142,8 @@ fn ty_spelled(ty: &FTy, all: &[Schema], style: usize) -> String {
     match (style, t.strip_prefix("Option<")) {
         (1, Some(rest)) => format!("std::option::Option<{}", rest),
         (2, Some(rest)) => format!("::core::option::Option<{}", rest),
+        // through a module alias (`use core::option;` at the top of the generated file)
+        (3, Some(rest)) => format!("option::Option<{}", rest),
         _ => t,
     }
 }
@@ -1222,6 +1224,16 @@ fn field_attrs(f: &FieldS, style: usize) -> String {
             let pre = if parts.is_empty() { String::new() } else { format!("#[cbor({})] ", parts.join(", ")) };
             format!("{}{}#[cbor({}({}))] ", custom, pre, idx_kw, f.idx)
         }
+    }
+}
+
+/// Attribute style `id % 3`; every fourth schema of attribute style 0 spells `Option` through a module alias (style 3,
+/// which writes attributes like style 0).
+fn spelling_style(id: usize) -> usize {
+    if id % 12 == 9 {
+        3
+    } else {
+        id % 3
     }
 }
 
@@ -1312,7 +1324,7 @@ pub fn emit_rust(all: &[Schema], shard: usize, shards: usize) -> String {
     let mine = |s: &Schema| s.helper || s.id % shards == shard;
     let entry = |s: &Schema| if s.helper { shard == 0 } else { s.id % shards == shard };
     let mut o = String::new();
-    o.push_str("// @generated by refmodel::schema::emit_rust\nuse refmodel::schema::GenVal;\n\n");
+    o.push_str("// @generated by refmodel::schema::emit_rust\n#[allow(unused_imports)]\nuse core::option;\nuse refmodel::schema::GenVal;\n\n");
     for s in all {
         if !mine(s) {
             continue;
@@ -1347,12 +1359,12 @@ pub fn emit_rust(all: &[Schema], shard: usize, shards: usize) -> String {
         };
         match &s.kind {
             Kind::Struct(st) => {
-                o.push_str(&format!("{}\n{}{}pub struct T{}{}{}{}\n", derives, enc_tag(&st.enc, &st.tag), if st.transparent { "#[cbor(transparent)] " } else { "" }, s.id, gdecl, fields_src(&st.fields, st.shape, all, true, s.id % 3), if st.shape == Shape::Named { "" } else { ";" }));
+                o.push_str(&format!("{}\n{}{}pub struct T{}{}{}{}\n", derives, enc_tag(&st.enc, &st.tag), if st.transparent { "#[cbor(transparent)] " } else { "" }, s.id, gdecl, fields_src(&st.fields, st.shape, all, true, spelling_style(s.id)), if st.shape == Shape::Named { "" } else { ";" }));
             }
             Kind::Enum(e) => {
                 o.push_str(&format!("{}\n{}{}pub enum T{}{} {{\n", derives, enc_tag(&e.enc, &e.tag), if e.index_only { "#[cbor(index_only)] " } else { "" }, s.id, gdecl));
                 for (p, v) in e.variants.iter().enumerate() {
-                    o.push_str(&format!("    {} {}V{}{},\n", if s.id % 3 == 2 { format!("#[cbor(n({}))]", v.idx) } else { format!("#[n({})]", v.idx) }, enc_tag(&v.enc, &v.tag), p, fields_src(&v.fields, v.shape, all, false, s.id % 3)));
+                    o.push_str(&format!("    {} {}V{}{},\n", if s.id % 3 == 2 { format!("#[cbor(n({}))]", v.idx) } else { format!("#[n({})]", v.idx) }, enc_tag(&v.enc, &v.tag), p, fields_src(&v.fields, v.shape, all, false, spelling_style(s.id))));
                 }
                 o.push_str("}\n");
             }
